@@ -69,7 +69,10 @@ class _NotASocket:
 
 
 FAMS = {"i": socket.AF_INET, "6": socket.AF_INET6, "u": getattr(socket, "AF_UNIX", -1), "o": 16}
-TYPS = {"s": socket.SOCK_STREAM, "o": socket.SOCK_DGRAM}
+# every letter but "s" is "not a stream socket" for the model and the specification; the enumeration members other than
+# SOCK_DGRAM matter because SOCK_RAW = 3 and SOCK_SEQPACKET = 5 share the low bit with SOCK_STREAM = 1
+TYPS = {"s": socket.SOCK_STREAM, "o": socket.SOCK_DGRAM, "r": socket.SOCK_RAW, "q": socket.SOCK_SEQPACKET,
+        "m": getattr(socket, "SOCK_RDM", 4)}
 _DESC = {}  # id(obj) -> SockDesc (objects kept alive in _KEEP)
 _KEEP = []
 
@@ -78,7 +81,7 @@ def make_sock(d):
     fam, typ = FAMS[d.fam], TYPS[d.typ]
     obj = None
     if d.is_socket:
-        if d.fam in ("i", "u") and len(_KEEP) < 400:
+        if d.fam in ("i", "u") and d.typ in ("s", "o", "q") and len(_KEEP) < 400:
             try:
                 obj = socket.socket(fam, typ)  # a real, unbound socket
             except OSError:
@@ -455,6 +458,11 @@ def sock_lists(tier):
     for k in range(1, maxlen + 1):
         for t in itertools.product(kinds, repeat=k):
             out.append(list(t))
+    # the other members of the socket type enumeration: alone, and next to a supported socket of either kind
+    for f in "i6u":
+        for t in "rqm":
+            d = SockDesc(True, f, t)
+            out += [[d], [SockDesc(True, "i", "s"), d], [d, SockDesc(True, "u", "s")], [SockDesc(False, "i", "s"), d]]
     return out
 
 
